@@ -964,7 +964,7 @@ func (fr *frame) loopHeader(h *ssa.BasicBlock, body map[*ssa.BasicBlock]bool, st
 		nv := ft.fresh("hv_"+mangle(k), s)
 		nst.vars[k] = nv
 		ft.noteWrite(h, k)
-		if strings.HasPrefix(k, "H|") || strings.HasPrefix(k, "B|") {
+		if strings.HasPrefix(k, "H|") {
 			// automatic frame invariant: cells that existed before the loop are not modified by it
 			// (assumed here, asserted on every back edge)
 			oldT := ft.stateGet(st, k, s)
